@@ -14,6 +14,7 @@ import AcVerif.Engine.Stream
 import AcVerif.Packed.Model
 import AcVerif.Pre.Builder
 import AcVerif.Cost
+import AcVerif.Compiler
 /-!
 # Line-protocol driver: the model's answer to each request
 -/
@@ -507,6 +508,37 @@ def answerCert (r : Req) : String :=
             if ok then none else some s!"anch={if anch then 1 else 0}:{d}"
           s!"cert-fail contract={if contract then 1 else 0} meta={if meta_ok then 1 else 0} fails={if failsOk then 1 else 0} " ++ " | ".intercalate diags
 
+/-- `certl1c`: certificate of a dumped noncontiguous NFA against the transcription of its
+compiler (L1c): whole match lists, both anchorings, and the number of failure links followed by
+every (state, byte) `next_state` call. -/
+def answerCertL1c (r : Req) : String :=
+  match MatchKind.parse (r.getD "mk" "std"), r.list? "pats" with
+  | some k, some P =>
+    match parseTable r k with
+    | none => "bad-request:dump"
+    | some T =>
+      let B := T.toAut
+      let n := T.states.size
+      let fold := r.flag "fold"
+      let N := CNfa.compile k fold P
+      let A := N.toAut k P T.hasPre
+      let res := [false, true].map fun anch =>
+        let f := buildSim A B n anch
+        let ok := certOk A B n anch false f allBytes
+        (anch, ok, if ok then "ok" else certDiag A B n anch false f toString)
+      let f := buildSim A B n false
+      let failsOk := (List.range n).all fun b =>
+        match f[b]?, T.states[b]? with
+        | some (some a), some st =>
+          allBytes.all fun c => st.fails.getD c.toNat 0 == (CNfa.nextState N false (N.size + 1) a c 0).2
+        | _, _ => true
+      if T.contractOk && failsOk && res.all (·.2.1) then s!"cert-ok states={n} l1c_states={N.size}"
+      else
+        let diags := res.filterMap fun (anch, ok, d) =>
+          if ok then none else some s!"anch={if anch then 1 else 0}:{d}"
+        s!"cert-fail contract={if T.contractOk then 1 else 0} fails={if failsOk then 1 else 0} " ++ " | ".intercalate diags
+  | _, _ => "bad-request:certl1c"
+
 /-- `certpair`: certificate of one dump (prefix `b_`) against another (prefix `a_`),
 full match lists, both anchorings. -/
 def answerCertPair (r : Req) : String :=
@@ -558,6 +590,7 @@ def respond (lineNo : Nat) (line : String) : List String :=
     match r.op with
     | "certl1" => [s!"{lineNo} - {answerCert r}"]
     | "certpair" => [s!"{lineNo} - {answerCertPair r}"]
+    | "certl1c" => [s!"{lineNo} - {answerCertL1c r}"]
     | "packed" => ((r.getD "pcfg" "default").splitOn ";").map fun v => s!"{lineNo} {v} {answerPacked r v}"
     | "pre" => (cfgsOf r).map fun c => s!"{lineNo} {c.name} {answerPre r c}"
     | "meta" => (cfgsOf r).map fun c => s!"{lineNo} {c.name} {answerMeta r c}"
